@@ -210,7 +210,11 @@ def check_case(case):
                 if ref["status"] != "not-judged":
                     cnt["ref_runs"] = cnt.get("ref_runs", 0) + 1
                     v2, i2, _c = H.compare_conditioned(va, ref, "labelled", "source", ref, lambda: mk(True))
-                    if v2 == "differ":
+                    nan_at = (ref.get("stat") or {}).get("nan_test_at")
+                    if v2 == "differ" and nan_at is not None and nan_at <= i2.get("index", 1 << 30):
+                        # the dynamic trigger of the NaN-test finding holds (C01 reports it): not judged here
+                        cnt["source_trace_not_judged_nan_test"] = cnt.get("source_trace_not_judged_nan_test", 0) + 1
+                    elif v2 == "differ":
                         problems.append(dict(signature=dict(monitor="source-trace", event="jump-lands-elsewhere:" + i2["kind"]), detail=dict(info=i2, env=es)))
                         break
     if problems:
